@@ -147,11 +147,15 @@ def grid(params: Dict) -> nx.MultiDiGraph:
             sp = rnd.choice(speeds)
             g.add_edge(u, t, length=d, speed_kmph=sp)
             g.add_edge(t, u, length=d, speed_kmph=sp)
-    p_preset = float(params.get("preset_time", 0.0))
-    if p_preset > 0:
-        # network files in which some links state their own travel time (length over speed) and the others leave it to the loader
+    preset = params.get("preset_time", 0.0)
+    if preset:
+        # network files in which some links state their own travel time (length over speed) and the others leave it to the loader:
+        # a random share of the links, or ("fast") the arterials - every link of the two highest speeds - and a few others
+        sp = sorted({d["speed_kmph"] for _, _, d in g.edges(data=True) if "speed_kmph" in d})
         for a, b, d in g.edges(data=True):
-            if "speed_kmph" in d and rnd.random() < p_preset:
+            if "speed_kmph" not in d:
+                continue
+            if (preset == "fast" and (d["speed_kmph"] in sp[-2:] or rnd.random() < 0.15)) or (preset != "fast" and rnd.random() < float(preset)):
                 d["travel_time"] = d["length"] / 1000.0 / d["speed_kmph"] * 3600.0
     if params.get("latlon_keys"):
         # junction coordinates under "lat"/"lon" instead of "y"/"x" (the loader reads either)
